@@ -1,8 +1,16 @@
 (* add_transaction and process: acceptance, no Panic, residual, error position (C01);
    deduced and assigned amounts, rejection of a second unconstrained posting, frame (C03). *)
 From Coq Require Import List NArith ZArith Bool QArith Qcanon Lia.
-From Okv Require Import Base.Maps Base.Dec Model.Amount Model.Book Model.BookSpec
-  Proofs.BookA_Maps Proofs.BookA_Amount Proofs.BookA_Check Proofs.BookA_Posting Proofs.BookA_Loop.
+From Okv Require Import Base.Maps.
+From Okv Require Import Base.Dec.
+From Okv Require Import Model.Amount.
+From Okv Require Import Model.Book.
+From Okv Require Import Model.BookSpec.
+From Okv Require Import Proofs.BookA_Maps.
+From Okv Require Import Proofs.BookA_Amount.
+From Okv Require Import Proofs.BookA_Check.
+From Okv Require Import Proofs.BookA_Posting.
+From Okv Require Import Proofs.BookA_Loop.
 Import ListNotations.
 Open Scope Qc_scope.
 
